@@ -48,6 +48,10 @@ def flatten(facts, ty, prefix="", depth=0):
 def _leaf_types(facts, ty, depth=0):
     """field types of a key type with tuples and the crate's plain record structs expanded"""
     ty = norm_ty(ty)
+    from . import emit as _emit
+
+    if ty in _emit.BOOLLIKE:
+        return ["bool"]  # a two-valued internal enum read as a boolean (vlib/codegen.py::ensure_boollike)
     if depth > 3:
         return [ty]
     if ty.startswith("(") and ty.endswith(")"):
